@@ -148,6 +148,17 @@ theorem write_is_one_send_or_nothing :
     Gen.pipeWrite_returns = ["0, ErrConnectionClosed", "0, ErrTimeout", "0, ErrConnectionClosed", "len(p), nil"] := by
   decide
 
+/-- Regenerated structural fact: the model's `write` event covers EVERY way bytes can enter the pipe.  In the whole
+    package the only function with a send on a pipe channel is `pipeConn.Write` (the listener's Dial sends on
+    `ln.conns`, a different channel); the other exported entry point `WriteString` (io.StringWriter, used by
+    io.WriteString and bufio) consists of `return c.Write(s2b(s))`; and inside Write the `<-stopCh → return` check
+    precedes the first send.  So no entry point can bypass the closed check or the one-send shape: a new method or
+    helper that sends by itself (e.g. a WriteString with its own copy-and-send) breaks this obligation. -/
+theorem every_entry_point_is_write :
+    Gen.pipe_sendFuncs = ["InmemoryListener.DialWithLocalAddr", "pipeConn.Write"] ∧
+    Gen.pipeWriteString_body = ["return c.Write(s2b(s))"] ∧ Gen.pipeWrite_closedCheckFirst = true := by
+  decide
+
 /-- Regenerated structural fact: Write does not retain the caller's slice.  The value it sends on the channel is the
     variable `b`, `b` is only ever `acquireByteBuffer()` (a pooled buffer of its own), its content is
     `append(b.b[:0], p...)` (a COPY of p), and p is used nowhere else except `len(p)`.  This discharges what the model
